@@ -918,3 +918,34 @@ def run_cas_scenario(seed):
     finally:
         if cl is not None:
             cl.close()
+
+
+def nu_scope_probe():
+    """C06: .cat / .head inside a script running for context B see only B unless the script names
+    another context explicitly; the handler's output lands in B. -> dict(...)"""
+    cl = Client("api,handlers")
+    try:
+        a = cl.append("xs.context")
+        b = cl.append("xs.context")
+        for c in (0, a, b):
+            cl.append("t", ctx=c, body=b"x")
+            cl.append("u", ctx=c, body=b"y")
+        script = ('{ run: {|frame| if $frame.topic != "go" { return }\n'
+                  '  let cats = (.cat | get context_id | uniq | str join ",")\n'
+                  '  let h = (.head t | get context_id)\n'
+                  f'  let hx = (.head t --context "{H.id_to_s(a)}" | get context_id)\n'
+                  '  $"($cats)|($h)|($hx)" } }')
+        hid = cl.append("p.register", ctx=b, body=script.encode())
+        if cl.wait_topic("p.registered", ctx=b, after=hid or 0) is None:
+            return dict(error="probe handler did not register")
+        cl.append("go", ctx=a)        # must not trigger the handler of B
+        g = cl.append("go", ctx=b)
+        cl.settle(0.4, 10)
+        outs = [f for f in cl.frames() if f["topic"] == "p.out"]
+        res = dict(n_out=len(outs), b=H.id_to_s(b), a=H.id_to_s(a), out_ctx=[H.id_to_s(f["ctx"]) for f in outs],
+                   triggers=[f["meta"].get("frame_id") for f in outs], content=None, go_b=H.id_to_s(g))
+        if outs:
+            res["content"] = json.loads(cl.cas(outs[0]["hash"]))
+        return res
+    finally:
+        cl.close()
